@@ -324,6 +324,8 @@ creationDateLoop:
 						cmd.Args[4] + seac.dx, cmd.Args[5] + seac.dy,
 					},
 				})
+			case OpClosePath:
+				g.Cmds = append(g.Cmds, GlyphOp{Op: OpClosePath})
 			}
 		}
 		g.HStem = append(g.HStem[:0], base.HStem...)
